@@ -19,7 +19,7 @@ class C36(Prop):
     rule = (
         "cases = a human-in-the-loop run on the real in-process server stack (WorkflowServer runtime chain over Memory/SQLite store) that "
         "idles between external events: `total` (2-5) Reply events are sent through the service at generated gaps G in {0.5..40} after "
-        "the previous one was processed, each taking generated work time; idle_timeout I in {1,2,5,10,never}. Oracle per gap: if "
+        "the previous one was processed (or exactly at the instant the idle timeout expires, over a store whose calls suspend for a generated number of event-loop yields), each taking generated work time; idle_timeout I in {1,2,5,10,never}. Oracle per gap: if "
         "G > I + margin the run was released from memory exactly once in that gap, at idle_start + I (within the polling period), and "
         "the stored handler carried idle_since while released; if G < I - margin it was not released; every send after a release "
         "reloaded the run (observed), and at the end the handler is completed with all replies recorded in arrival order in the state "
@@ -29,7 +29,7 @@ class C36(Prop):
         "in-process stack only: the DBOS idle-release decorator needs the DBOS engine and Postgres, neither of which can be installed here (see DESIGN.md 4.1)",
         "release/reload instants are observed by polling the idle-release decorator's active-run set every 0.25 virtual seconds; gaps within 0.75 s of the idle timeout are not judged",
     ]
-    budgets = {"quick": 700, "thorough": 4000}
+    budgets = {"quick": 350, "thorough": 4000}
     wall = {"quick": 60.0, "thorough": 900.0}
 
     def setup(self):
@@ -43,7 +43,10 @@ class C36(Prop):
                 "total": total,
                 "work": draw(st.sampled_from([0, 0, 1, 3])),
                 "workers": draw(st.integers(1, 2)),
-                "gaps": [draw(st.sampled_from([0.5, 1.5, 3, 4, 7, 12, 25, 40])) for _ in range(total)],
+                # "deadline" = the event is sent at the very instant the idle timeout expires (races the release timer)
+                "gaps": [draw(st.sampled_from([0.5, 1.5, 3, 4, 7, 12, 25, 40, "deadline", "deadline"])) for _ in range(total)],
+                # a store with real I/O suspends inside its calls: generated numbers of event-loop yields before each store call
+                "yields": draw(st.sampled_from([[], [], [1], [0, 2], [2, 0, 1], [1, 3], [3, 1, 0, 2]])),
                 "idle_timeout": draw(st.sampled_from([1, 2, 5, 10, None])),
                 "store": draw(st.sampled_from(["memory", "memory", "sqlite"])),
                 "ties": draw(st.lists(st.integers(0, 7), max_size=4)),
@@ -64,17 +67,22 @@ class C36(Prop):
             tmp = srv.tmp_root() if case["store"] == "sqlite" else None
             try:
                 store = srv.make_store(case["store"], tmp)
+                if case.get("yields"):
+                    store = srv.StoreProxy(store, yields=case["yields"])
                 life = await srv.start_life(store, srv.reply_factory(case, log), idle_timeout=float(I) if I is not None else 1e9)
                 hd = await life.server._service.start_workflow(life.wf, "h1", start_event=ge.GStart())
                 cur = {"life": life, "store": store, "handler_id": "h1"}
                 mon = asyncio.create_task(srv.watch_release(cur, hd.run_id, obs, POLL))
                 idle_from = VClock.t  # the start step finishes at once: the run idles from t=0
                 for n, gap in enumerate(case["gaps"]):
+                    if gap == "deadline":
+                        gap = max(0.0, idle_from + float(I) - VClock.t) if I is not None else 1.0
+                        obs["deadline_sends"] = obs.get("deadline_sends", 0) + 1
                     await asyncio.sleep(gap)
                     t_send = VClock.t
                     try:
                         await life.server._service.send_event("h1", ge.Reply(n=n))
-                        obs["sends"].append({"n": n, "t": t_send, "idle_from": idle_from, "gap": gap})
+                        obs["sends"].append({"n": n, "t": t_send, "idle_from": idle_from, "gap": gap, "deadline": case["gaps"][n] == "deadline"})
                     except Exception as e:  # noqa: BLE001
                         obs["send_errors"].append(repr(e)[:160])
                     # wait until this reply was processed (or give up at a horizon), then the next idle period starts
@@ -102,9 +110,12 @@ class C36(Prop):
 
         rel = obs["released"]
         n_rel_ok = 0
+        prev_deadline = False
         for s in obs["sends"]:
             lo, hi = s["idle_from"], s["t"]
-            inside = [x for x in rel if lo - 1e-6 < x["t"] <= hi + POLL + 1e-6]
+            # (a release racing a send at the deadline is observed up to one polling period later: it belongs to that gap, not the next)
+            inside = [x for x in rel if lo + (POLL if prev_deadline else 0.0) - 1e-6 < x["t"] <= hi + POLL + 1e-6]
+            prev_deadline = s.get("deadline", False)
             if I is not None and s["gap"] > I + 0.75:
                 if len(inside) != 1:
                     r.v("idle_run_not_released_once_in_gap", releases=len(inside), gap=s["gap"], idle_timeout=I)
@@ -143,6 +154,8 @@ class C36(Prop):
             r.classes.append("release_then_reload")
         if len(rel) >= 2:
             r.classes.append("released_twice_or_more")
+        if obs.get("deadline_sends") and I is not None:
+            r.classes.append("send_at_release_deadline" + ("_suspending_store" if case.get("yields") else ""))
         r.classes.append("store_" + case["store"])
         r.nontrivial = n_rel_ok > 0
         r.sample = {"case": case, "released": [x["t"] for x in rel][:4], "reloaded": obs["reloaded"][:4], "status": row.get("status")}
